@@ -21,42 +21,151 @@ func checkManifestUniqueEntries(r *Run, p *packages.Package) {
 		return
 	}
 	// range loops of the validator over slices of structs with a string-typed naming field
+	type callCtx struct {
+		fd    *ast.FuncDecl             // the function the call stands in
+		loops []ast.Node                // the loops around the call there
+		bind  map[types.Object]ast.Expr // parameters of the callee -> the arguments
+		up    *callCtx
+	}
 	type loop struct {
 		rs    *ast.RangeStmt
 		elem  types.Object
 		field string
+		fd    *ast.FuncDecl // the function the loop stands in
+		outer []ast.Node    // the loops around it in that function
+		ctx   *callCtx      // how the function was reached from the validator (nil: the validator itself)
 	}
 	var loops []loop
 	// helpers of the validator — also methods of a local that holds what it remembers between entries — are read in place
 	body := inlineFuncWith(p, fd, 2, true).Body
-	ast.Inspect(body, func(x ast.Node) bool {
-		rs, ok := x.(*ast.RangeStmt)
-		if !ok || rs.Value == nil {
-			return true
-		}
-		id, ok := rs.Value.(*ast.Ident)
-		if !ok {
-			return true
-		}
-		st, ok := info.TypeOf(rs.Value).Underlying().(*types.Struct)
-		if !ok {
-			return true
-		}
-		for _, name := range []string{"Name", "Path"} {
-			for i := 0; i < st.NumFields(); i++ {
-				if f := st.Field(i); f.Name() == name {
-					if b, isBasic := f.Type().Underlying().(*types.Basic); isBasic && b.Kind() == types.String {
-						loops = append(loops, loop{rs, info.Defs[id], name})
+	allDecls := FuncDecls(p)
+	var discover func(root ast.Node, in *ast.FuncDecl, ctx *callCtx, depth int)
+	discover = func(root ast.Node, in *ast.FuncDecl, ctx *callCtx, depth int) {
+		var stack []ast.Node
+		ast.Inspect(root, func(x ast.Node) bool {
+			if x == nil {
+				stack = stack[:len(stack)-1]
+				return false
+			}
+			stack = append(stack, x)
+			enclosing := func() []ast.Node {
+				var out []ast.Node
+				for _, n := range stack[:len(stack)-1] {
+					switch n.(type) {
+					case *ast.RangeStmt, *ast.ForStmt:
+						out = append(out, n)
 					}
+				}
+				return out
+			}
+			switch t := x.(type) {
+			case *ast.RangeStmt:
+				if t.Value == nil {
+					return true
+				}
+				id, ok := t.Value.(*ast.Ident)
+				if !ok {
+					return true
+				}
+				st, ok := info.TypeOf(t.Value).Underlying().(*types.Struct)
+				if !ok {
+					return true
+				}
+				for _, name := range []string{"Name", "Path"} {
+					for i := 0; i < st.NumFields(); i++ {
+						if f := st.Field(i); f.Name() == name {
+							if b, isBasic := f.Type().Underlying().(*types.Basic); isBasic && b.Kind() == types.String {
+								loops = append(loops, loop{t, info.Defs[id], name, in, enclosing(), ctx})
+							}
+						}
+					}
+				}
+			case *ast.CallExpr:
+				// a helper that could not be read in place (it returns from inside a loop): its loops are the validator's
+				if depth >= 2 {
+					return true
+				}
+				fn := calleeOf(info, t)
+				if fn == nil || fn.Pkg() != p.Types {
+					return true
+				}
+				hd := allDecls[declKeyOf(fn.Origin())]
+				if hd == nil || hd.Body == nil || hd == in || hd == fd {
+					return true
+				}
+				hasLoop := false
+				ast.Inspect(hd.Body, func(m ast.Node) bool {
+					if _, ok := m.(*ast.RangeStmt); ok {
+						hasLoop = true
+					}
+					return !hasLoop
+				})
+				if !hasLoop {
+					return true
+				}
+				bind := map[types.Object]ast.Expr{}
+				i := 0
+				if hd.Type.Params != nil {
+					for _, pl := range hd.Type.Params.List {
+						for _, nm := range pl.Names {
+							if i < len(t.Args) {
+								bind[info.Defs[nm]] = t.Args[i]
+							}
+							i++
+						}
+					}
+				}
+				discover(hd.Body, hd, &callCtx{fd: in, loops: enclosing(), bind: bind, up: ctx}, depth+1)
+			}
+			return true
+		})
+	}
+	discover(body, fd, nil, 0)
+	// seenScope: the map the loop keeps its seen-set in is made once for all the entries — outside the loop, outside the
+	// loops around it, and, when the loop stands in a helper, outside the loops around the helper's call
+	var seenScope func(m ast.Expr, in *ast.FuncDecl, around []ast.Node, ctx *callCtx, depth int) (bool, string)
+	seenScope = func(m ast.Expr, in *ast.FuncDecl, around []ast.Node, ctx *callCtx, depth int) (bool, string) {
+		id, ok := ast.Unparen(m).(*ast.Ident)
+		if !ok || depth > 3 {
+			return true, "" // a field of a longer-lived value
+		}
+		obj := info.Uses[id]
+		if ctx != nil {
+			if arg, isParam := ctx.bind[obj]; isParam {
+				return seenScope(arg, ctx.fd, ctx.loops, ctx.up, depth+1)
+			}
+		}
+		if v, isVar := obj.(*types.Var); !isVar || v.Parent() == p.Types.Scope() {
+			return true, ""
+		}
+		for _, l := range around {
+			if l.Pos() <= obj.Pos() && obj.Pos() < l.End() {
+				return false, "the seen-set " + id.Name + " is made anew on every turn of a loop around the entries"
+			}
+		}
+		if ctx != nil && len(ctx.loops) > 0 {
+			return false, "the seen-set " + id.Name + " is made inside " + funcDeclName(in) + ", which is called once per turn of a loop in " + funcDeclName(ctx.fd) + ": an entry is only compared with the entries of the same turn"
+		}
+		if ctx != nil && ctx.up != nil {
+			for c := ctx; c != nil; c = c.up {
+				if len(c.loops) > 0 {
+					return false, "the seen-set " + id.Name + " is made inside a helper that is called once per turn of a loop"
 				}
 			}
 		}
-		return true
-	})
+		return true, ""
+	}
 	if len(loops) < 2 {
 		r.Undecide("C20-R7: the manifest validator walks fewer than two lists of named entries (%d)", len(loops))
 		return
 	}
+	type groupVerdict struct {
+		pos        token.Pos
+		typ, field string
+		good       bool
+		scopeWhy   string
+	}
+	verdicts := map[string]*groupVerdict{}
 	for _, l := range loops {
 		// seen-set idiom inside the loop body: a map is read with a key derived from elem.<field> and the failing branch
 		// returns, and the same map is written with such a key
@@ -148,9 +257,11 @@ func checkManifestUniqueEntries(r *Run, p *packages.Package) {
 			})
 		}
 		reads, writes := map[string]bool{}, map[string]bool{}
+		mapExprs := map[string]ast.Expr{}
 		cellText := func(e ast.Expr) (string, bool) {
 			switch t := ast.Unparen(e).(type) {
 			case *ast.Ident:
+				mapExprs[t.Name] = t
 				return t.Name, true
 			case *ast.SelectorExpr:
 				if isFieldPath(info, t) {
@@ -209,16 +320,40 @@ func checkManifestUniqueEntries(r *Run, p *packages.Package) {
 			}
 		}
 		unique := false
+		scopeWhy := ""
 		for m := range reads {
 			if writes[m] {
 				unique = true
+				if e := mapExprs[m]; e != nil {
+					if ok, why := seenScope(e, l.fd, append(append([]ast.Node{}, l.outer...), l.rs), l.ctx, 0); !ok {
+						scopeWhy = why
+					}
+				}
 			}
 		}
 		construct := "Manifest.validate:" + namedName(info.TypeOf(l.rs.Value)) + "." + l.field
-		if unique {
-			r.Pass("C20-R7-manifest-unique-entries", construct, l.rs.Pos(), "a repeated %s is refused", l.field)
-		} else {
-			r.Fail("C20-R7-manifest-unique-entries", construct, l.rs.Pos(), "the manifest validator walks the %s entries without refusing a repeated %s: an entry listed twice passes every per-file check (checksum, count, shape) and is loaded twice", namedName(info.TypeOf(l.rs.Value)), l.field)
+		v := verdicts[construct]
+		if v == nil {
+			v = &groupVerdict{pos: l.rs.Pos(), typ: namedName(info.TypeOf(l.rs.Value)), field: l.field}
+			verdicts[construct] = v
+		}
+		switch {
+		case unique && scopeWhy == "":
+			v.good = true
+		case unique:
+			v.scopeWhy = scopeWhy
+		}
+	}
+	// one obligation per list of named entries: some loop over it keeps a seen-set that spans all the entries
+	for _, construct := range sortedKeys(verdicts) {
+		v := verdicts[construct]
+		switch {
+		case v.good:
+			r.Pass("C20-R7-manifest-unique-entries", construct, v.pos, "a repeated %s is refused", v.field)
+		case v.scopeWhy != "":
+			r.Fail("C20-R7-manifest-unique-entries", construct, v.pos, "the manifest validator refuses a repeated %s only among part of the entries: %s — an entry listed twice in different parts passes every per-file check and is loaded twice", v.field, v.scopeWhy)
+		default:
+			r.Fail("C20-R7-manifest-unique-entries", construct, v.pos, "the manifest validator walks the %s entries without refusing a repeated %s: an entry listed twice passes every per-file check (checksum, count, shape) and is loaded twice", v.typ, v.field)
 		}
 	}
 	_ = token.NoPos
